@@ -55,7 +55,7 @@ class M15(mir2.Machine):
         r = r.strip()
         m = re.match(r"^I18nContext::<L(?:, [^>]*)?> \{ locale_signal: (.*), scope_marker: .* \}$", r)
         if m:
-            return ("ctx", self.operand(st, frame, mir2.parse_operand(m.group(1))))
+            return ("tuple", (self.operand(st, frame, mir2.parse_operand(m.group(1))), ("unit",)))
         return super().rvalue(st, frame, r, fn, stmt)
 
     def operand(self, st, frame, o):
@@ -154,15 +154,14 @@ def build_machine(mir, sym):
         return ret(st, sym["best"])
 
     def s_use_context(m, st, args, callee):
-        return ret(st, opt(sym["has_parent"], ("ctx", ("rwparent",))))
+        return ret(st, opt(sym["has_parent"], sym.get("parent_ctx", ("tuple", (("rwparent",), ("unit",))))))
 
     def s_get_locale_untracked(m, st, args, callee):
         c = m.deref_all(st, args[0])
-        if isinstance(c, tuple) and c[0] == "ctx" and c[1] == ("rwparent",):
+        if isinstance(c, tuple) and c[0] == "tuple" and c[1][0] == ("rwparent",):
             return ret(st, sym["parent"])
-        if isinstance(c, tuple) and c[0] == "ctx" and isinstance(c[1], tuple) and c[1][0] == "rw":
-            return ret(st, st.mem[c[1][1]])
-        raise Unsupported("get_locale_untracked on %r" % (c,))
+        # a context made of a real cell: run the method from MIR
+        return m.call_fn(m.fn(r"::get_locale_untracked\(_1: I18nContext<L, S>\)"), list(args), st)
 
     def s_opt_map(m, st, args, callee):
         o, clos = args
@@ -325,9 +324,9 @@ def fresh(prefix):
 
 def ctx_locale(m, st, v):
     v = m.deref_all(st, v)
-    if not (isinstance(v, tuple) and v[0] == "ctx" and isinstance(v[1], tuple) and v[1][0] == "rw"):
+    if not (isinstance(v, tuple) and v[0] == "tuple" and isinstance(v[1][0], tuple) and v[1][0][0] == "rw"):
         raise Unsupported("entry point returned %r" % (v,))
-    return st.mem[v[1][1]]
+    return st.mem[v[1][0][1]]
 
 
 def decide_entry(mir, entry, timeout_ms=30000):
